@@ -75,6 +75,7 @@ class MinMaxAggregator:
 
     def __init__(self, prg: list[AST], input_predicates: list[Predicate]):
         self.unique_names = UniqueNames(prg, input_predicates)
+        self.input_predicates = set(input_predicates)
         self.rule_dependency = RuleDependency(prg)
         self.domain_predicates = DomainPredicates(self.unique_names, prg)
         # list of ({AggregateFunction.Max, AggregateFunction.Min}, Translation, index)
@@ -94,6 +95,8 @@ class MinMaxAggregator:
             is_predicate(head)
             and len(self.rule_dependency.get_bodies(Predicate(head.atom.symbol.name, len(head.atom.symbol.arguments))))
             == 1  # only this head occurence
+            # and no facts from the outside
+            and Predicate(head.atom.symbol.name, len(head.atom.symbol.arguments)) not in self.input_predicates
         ):
             return
         symbol = head.atom.symbol
